@@ -86,10 +86,6 @@ Section WithAddresses.
   Variable addr_enc : addr -> bytes.
   Variable can_memo : addr -> bool.
   Variable t_only : addr -> bool.
-  (** the oracle hypotheses: the decoder inverts the encoder; encodings are non-empty alphanumeric *)
-  Hypothesis addr_rt : forall a, addr_dec (addr_enc a) = Some a.
-  Hypothesis addr_enc_nonempty : forall a, addr_enc a <> [].
-  Hypothesis addr_enc_alnum : forall a, forallb is_alnum (addr_enc a) = true.
 
   Notation payment := (payment addr).
   Notation request := (request addr).
@@ -101,13 +97,44 @@ Section WithAddresses.
   Notation wf_paymentb := (wf_paymentb addr).
   Notation valid_paymentb := (valid_paymentb addr can_memo t_only).
 
-  (** [renders s ip]: the string [s], followed by anything that cannot continue a value, parses
-      as the one parameter [ip]. *)
-  Definition renders (s : bytes) (ip : param * Z) : Prop :=
-    forall rest, stops is_qchar rest -> zcashparam (s ++ rest) = Some (ip, rest).
+  (** What the theorems need of the address oracle, per address: the decoder inverts the encoder on
+      it, and its encoding is non-empty and alphanumeric. *)
+  Definition addr_ok (a : addr) : Prop :=
+    addr_dec (addr_enc a) = Some a /\ addr_enc a <> [] /\ forallb is_alnum (addr_enc a) = true.
+  Definition addrs_ok (r : request) : Prop := Forall (fun ip => addr_ok (p_addr (snd ip))) r.
+
+  (** [prenders s o]: the string [s], followed by anything that cannot continue a value, parses as
+      the one parameter [ip] ([o = Some ip]) or is refused by [zcashparam] ([o = None]). *)
+  Definition prenders (s : bytes) (o : option (param * Z)) : Prop :=
+    s <> [] /\
+    forall rest, stops is_qchar rest ->
+      zcashparam (s ++ rest) = match o with Some ip => Some (ip, rest) | None => None end.
+  Definition renders (s : bytes) (ip : param * Z) : Prop := prenders s (Some ip).
 
   Definition idx_val (idx : option Z) : Z := match idx with Some i => i | None => 0 end.
 
+  Lemma zcashparam_prender name idx value op :
+    valid_nameb name = true -> idx_ok idx -> forallb is_qchar value = true ->
+    (forall iopt, to_indexed_param name iopt value =
+                  match op with
+                  | None => None
+                  | Some p => match iopt with
+                              | Some istr => match parse_u64 istr with Some i => Some (p, i) | None => None end
+                              | None => Some (p, 0)
+                              end
+                  end) ->
+    prenders (name ++ param_index idx ++ [61] ++ value) (option_map (fun p => (p, idx_val idx)) op).
+  Proof.
+    intros V I Q T. split; [destruct name; [discriminate | discriminate]|].
+    intros rest Sr. unfold Model.zcashparam.
+    replace ((name ++ param_index idx ++ [61] ++ value) ++ rest)
+      with (name ++ param_index idx ++ 61 :: (value ++ rest)) by (rewrite <- !app_assoc; reflexivity).
+    rewrite indexed_name_render by assumption. rewrite Z.eqb_refl.
+    rewrite (span_app is_qchar value rest Q Sr). rewrite T.
+    destruct op as [p|]; [|reflexivity]. cbn [option_map].
+    destruct idx as [i|]; cbn [iopt_of idx_val idx_ok] in *; [|reflexivity].
+    rewrite parse_u64_dec_str by (unfold u64_max; lia). reflexivity.
+  Qed.
   Lemma zcashparam_render name idx value p :
     valid_nameb name = true -> idx_ok idx -> forallb is_qchar value = true ->
     (forall iopt, to_indexed_param name iopt value =
@@ -116,27 +143,14 @@ Section WithAddresses.
                   | None => Some (p, 0)
                   end) ->
     renders (name ++ param_index idx ++ [61] ++ value) (p, idx_val idx).
-  Proof.
-    intros V I Q T rest Sr. unfold Model.zcashparam.
-    replace ((name ++ param_index idx ++ [61] ++ value) ++ rest)
-      with (name ++ param_index idx ++ 61 :: (value ++ rest)) by (rewrite <- !app_assoc; reflexivity).
-    rewrite indexed_name_render by assumption. rewrite Z.eqb_refl.
-    rewrite (span_app is_qchar value rest Q Sr). rewrite T.
-    destruct idx as [i|]; cbn [iopt_of idx_val idx_ok] in *; [|reflexivity].
-    rewrite parse_u64_dec_str by (unfold u64_max; lia). reflexivity.
-  Qed.
+  Proof. intros V I Q T. apply (zcashparam_prender name idx value (Some p) V I Q T). Qed.
 
-  (** the five fixed names *)
-  Lemma valid_fixed : valid_nameb s_address = true /\ valid_nameb s_amount = true /\ valid_nameb s_memo = true
-                      /\ valid_nameb s_label = true /\ valid_nameb s_message = true.
-  Proof. vm_compute. repeat split. Qed.
-
-  Lemma renders_addr a idx : idx_ok idx -> renders (addr_param addr addr_enc a idx) (PAddr a, idx_val idx).
+  Lemma renders_addr a idx : addr_ok a -> idx_ok idx -> renders (addr_param addr addr_enc a idx) (PAddr a, idx_val idx).
   Proof.
-    intros I. unfold addr_param. apply zcashparam_render; [reflexivity | exact I | |].
-    - eapply forallb_impl; [apply alnum_qchar | apply addr_enc_alnum].
+    intros (RT & _ & AN) I. unfold addr_param. apply zcashparam_render; [reflexivity | exact I | |].
+    - eapply forallb_impl; [apply alnum_qchar | exact AN].
     - intros iopt. unfold Model.to_indexed_param. change (bytes_eqb s_address s_address) with true. cbv iota.
-      rewrite addr_rt. reflexivity.
+      rewrite RT. reflexivity.
   Qed.
   Lemma renders_amount z idx : idx_ok idx -> 0 <= z <= MAX_MONEY -> renders (amount_param z idx) (PAmount z, idx_val idx).
   Proof.
@@ -167,38 +181,69 @@ Section WithAddresses.
     change (bytes_eqb s_message s_message) with true. cbv iota.
     rewrite decode_str_pct_encode by exact U. reflexivity.
   Qed.
-  Lemma reserved_false n : reservedb n = false ->
+
+  (** additional parameters: the name is in the grammar and is none of the five defined names
+      ([five_free]); a [req-] name is then refused by the parser, any other is read back *)
+  Definition five_free (n : bytes) : bool := negb (existsb (bytes_eqb n) reserved_names).
+  Lemma five_free_false n : five_free n = true ->
     bytes_eqb n s_address = false /\ bytes_eqb n s_amount = false /\ bytes_eqb n s_memo = false /\
-    bytes_eqb n s_label = false /\ bytes_eqb n s_message = false /\ starts_with s_req n = false.
+    bytes_eqb n s_label = false /\ bytes_eqb n s_message = false.
   Proof.
-    unfold reservedb, reserved_names. cbn [existsb]. intros H.
-    repeat (apply orb_false_iff in H; destruct H as [? H] || idtac). repeat split; auto.
-    all: repeat match goal with H : _ || _ = false |- _ => apply orb_false_iff in H; destruct H end; auto.
+    unfold five_free, reserved_names. cbn [existsb]. intros H. apply negb_true_iff in H.
+    repeat match goal with H : _ || _ = false |- _ => apply orb_false_iff in H; destruct H end. repeat split; assumption.
   Qed.
-  Lemma renders_other n v idx : idx_ok idx -> valid_nameb n = true -> reservedb n = false -> utf8_valid v = true ->
-    renders (str_param n v idx) (POther n v, idx_val idx).
+  Lemma reservedb_split n : reservedb n = negb (five_free n) || starts_with s_req n.
+  Proof. unfold reservedb, five_free. rewrite negb_involutive. reflexivity. Qed.
+
+  Definition oother (idx : option Z) (nv : bytes * bytes) : option (param * Z) :=
+    if starts_with s_req (fst nv) then None else Some (POther (fst nv) (snd nv), idx_val idx).
+
+  Lemma prenders_other n v idx : idx_ok idx -> valid_nameb n = true -> five_free n = true -> utf8_valid v = true ->
+    prenders (str_param n v idx) (oother idx (n, v)).
   Proof.
-    intros I V R U. unfold str_param. apply zcashparam_render; [exact V | exact I | apply pct_encode_qchars, utf8_valid_bytes, U |].
+    intros I V R U. unfold str_param, oother. cbn [fst snd].
+    replace (if starts_with s_req n then None else Some (POther n v, idx_val idx))
+      with (option_map (fun p : param => (p, idx_val idx)) (if starts_with s_req n then None else Some (POther n v)))
+      by (destruct (starts_with s_req n); reflexivity).
+    apply zcashparam_prender; [exact V | exact I | apply pct_encode_qchars, utf8_valid_bytes, U |].
     intros iopt. unfold Model.to_indexed_param.
-    destruct (reserved_false n R) as (A & B & C & D & E & F). rewrite A, B, C, D, E, F.
+    destruct (five_free_false n R) as (A & B & C & D & E). rewrite A, B, C, D, E.
+    destruct (starts_with s_req n); [reflexivity|].
     rewrite decode_str_pct_encode by exact U. reflexivity.
   Qed.
 
   (** ** the parameters a payment stands for *)
+  Definition fixed_params (p : payment) : list param :=
+    opt_list (option_map PAmount (p_amount p)) ++ opt_list (option_map PMemo (p_memo p))
+    ++ opt_list (option_map PLabel (p_label p)) ++ opt_list (option_map PMessage (p_message p)).
   Definition params_of (p : payment) : list param :=
     PAddr (p_addr p) :: opt_list (option_map PAmount (p_amount p)) ++ opt_list (option_map PMemo (p_memo p))
     ++ opt_list (option_map PLabel (p_label p)) ++ opt_list (option_map PMessage (p_message p))
     ++ map (fun nv => POther (fst nv) (snd nv)) (p_other p).
+  Lemma params_of_fixed p : tl (params_of p) = fixed_params p ++ map (fun nv => POther (fst nv) (snd nv)) (p_other p).
+  Proof. unfold params_of, fixed_params. cbn [tl]. rewrite <- !app_assoc. reflexivity. Qed.
 
-  Definition good_payment (p : payment) : Prop := wf_paymentb p = true /\ valid_paymentb p = true.
-
-  Lemma renders_payment_params p idx : idx_ok idx -> good_payment p ->
-    Forall2 renders (payment_params addr p idx) (map (fun q => (q, idx_val idx)) (tl (params_of p))).
+  (** names of the additional parameters: grammar + none of the five defined names *)
+  Definition names_pre (p : payment) : bool :=
+    forallb (fun nv => valid_nameb (fst nv) && five_free (fst nv)) (p_other p).
+  Definition no_req (p : payment) : bool := forallb (fun nv => negb (starts_with s_req (fst nv))) (p_other p).
+  Lemma other_names_rule_split p : other_names_rule addr p = names_pre p && no_req p.
   Proof.
-    intros I [W V]. unfold wf_paymentb in W. unfold valid_paymentb in V.
+    unfold other_names_rule, names_pre, no_req. induction (p_other p) as [|[n v] l IH]; [reflexivity|].
+    cbn [forallb fst]. rewrite IH, reservedb_split, negb_orb, negb_involutive.
+    destruct (valid_nameb n), (five_free n), (starts_with s_req n); cbn; try reflexivity;
+      repeat rewrite ?andb_false_r, ?andb_true_r; reflexivity.
+  Qed.
+
+  Definition oparams (p : payment) (idx : option Z) : list (option (param * Z)) :=
+    map (fun q => Some (q, idx_val idx)) (fixed_params p) ++ map (oother idx) (p_other p).
+
+  Lemma prenders_payment_params p idx : idx_ok idx -> wf_paymentb p = true -> names_pre p = true ->
+    Forall2 prenders (payment_params addr p idx) (oparams p idx).
+  Proof.
+    intros I W NP. unfold wf_paymentb in W.
     repeat (apply andb_true_iff in W; destruct W as [W ?]).
-    repeat (apply andb_true_iff in V; destruct V as [V ?]).
-    unfold payment_params, params_of. cbn [tl]. rewrite !map_app.
+    unfold payment_params, oparams, fixed_params. rewrite !map_app, <- !app_assoc.
     repeat apply Forall2_app.
     - destruct (p_amount p) as [z|]; cbn; [|constructor]. constructor; [|constructor].
       cbn [opt_all] in W. apply renders_amount; [exact I | lia].
@@ -209,14 +254,39 @@ Section WithAddresses.
       unfold byteb in B. unfold byte. lia.
     - destruct (p_label p) as [s|]; cbn; [|constructor]. constructor; [|constructor]. apply renders_label; assumption.
     - destruct (p_message p) as [s|]; cbn; [|constructor]. constructor; [|constructor]. apply renders_message; assumption.
-    - match goal with H : other_names_rule _ _ = true |- _ => unfold other_names_rule in H; rename H into ON end.
+    - unfold names_pre in NP.
       match goal with H : forallb (fun nv => utf8_valid (fst nv) && utf8_valid (snd nv)) _ = true |- _ => rename H into OU end.
       induction (p_other p) as [|[n v] l IH]; cbn [map]; [constructor|].
-      cbn [forallb fst snd] in ON, OU. apply andb_true_iff in ON. destruct ON as [ON1 ON].
+      cbn [forallb fst snd] in NP, OU. apply andb_true_iff in NP. destruct NP as [N1 NP].
       apply andb_true_iff in OU. destruct OU as [OU1 OU].
-      apply andb_true_iff in ON1. destruct ON1 as [Vn Rn]. apply andb_true_iff in OU1. destruct OU1 as [_ Uv].
+      apply andb_true_iff in N1. destruct N1 as [Vn Rn]. apply andb_true_iff in OU1. destruct OU1 as [_ Uv].
       constructor; [|apply IH; assumption].
-      apply renders_other; auto. apply negb_true_iff. exact Rn.
+      apply prenders_other; auto.
+  Qed.
+
+  Fixpoint somes {A} (os : list (option A)) : list A :=
+    match os with
+    | Some x :: r => x :: somes r
+    | _ => []
+    end.
+  Definition all_some {A} (os : list (option A)) : bool := forallb (fun o => match o with Some _ => true | None => false end) os.
+  Lemma somes_map_some {A} (l : list A) : somes (map Some l) = l /\ all_some (map Some l) = true.
+  Proof. induction l as [|x l [IH1 IH2]]; [split; reflexivity|]. cbn. rewrite IH1. split; [reflexivity | exact IH2]. Qed.
+
+  Lemma oparams_no_req p idx : no_req p = true ->
+    oparams p idx = map Some (map (fun q => (q, idx_val idx)) (tl (params_of p))).
+  Proof.
+    intros NR. unfold oparams. rewrite params_of_fixed, !map_app, !map_map. f_equal.
+    unfold no_req in NR. induction (p_other p) as [|[n v] l IH]; [reflexivity|].
+    cbn [forallb fst] in NR. apply andb_true_iff in NR. destruct NR as [N1 NR].
+    cbn [map]. rewrite (IH NR). unfold oother. cbn [fst snd]. apply negb_true_iff in N1. rewrite N1. reflexivity.
+  Qed.
+  Lemma oparams_req p idx : no_req p = false -> all_some (oparams p idx) = false.
+  Proof.
+    intros NR. unfold oparams, all_some. rewrite forallb_app. apply andb_false_iff. right.
+    unfold no_req in NR. induction (p_other p) as [|[n v] l IH]; [discriminate|].
+    cbn [forallb fst map] in *. unfold oother at 1. cbn [fst].
+    destruct (starts_with s_req n); [reflexivity|]. cbn [negb andb] in NR. exact (IH NR).
   Qed.
 
   (** ** separated_list0 on a rendered list *)
@@ -229,23 +299,36 @@ Section WithAddresses.
   Lemma stops_tl_str ss : stops is_qchar (tl_str ss).
   Proof. destruct ss; [exact I | exact not_qchar_38]. Qed.
 
-  Lemma params_tail_render ss ips : Forall2 renders ss ips ->
+  Lemma params_tail_prender ss os : Forall2 prenders ss os ->
     forall fuel acc, (length (tl_str ss) <= fuel)%nat ->
-      params_tail addr addr_dec fuel (tl_str ss) acc = (acc ++ ips, []).
+      exists rest, params_tail addr addr_dec fuel (tl_str ss) acc = (acc ++ somes os, rest)
+                   /\ is_nil rest = all_some os.
   Proof.
-    induction 1 as [|s ip ss ips R _ IH]; intros fuel acc Hf.
-    - rewrite app_nil_r. destruct fuel; reflexivity.
+    induction 1 as [|s o ss os R _ IH]; intros fuel acc Hf.
+    - exists []. rewrite app_nil_r. split; [destruct fuel; reflexivity | reflexivity].
     - cbn [tl_str flat_map] in *. fold (tl_str ss) in *. cbn [length app] in Hf.
       destruct fuel as [|f]; [lia|]. cbn [params_tail app]. rewrite Z.eqb_refl.
-      rewrite (R (tl_str ss) (stops_tl_str ss)). rewrite app_length in Hf.
-      rewrite IH by lia. rewrite <- app_assoc. reflexivity.
+      rewrite (proj2 R (tl_str ss) (stops_tl_str ss)). rewrite app_length in Hf.
+      destruct o as [ip|].
+      + destruct (IH f (acc ++ [ip]) ltac:(lia)) as (rest & E & N). exists rest.
+        rewrite E, <- app_assoc. split; [reflexivity | exact N].
+      + eexists. split; [cbn [somes]; rewrite app_nil_r; reflexivity | reflexivity].
   Qed.
-  Lemma params_list_render ss ips : Forall2 renders ss ips ->
+  Lemma params_list_prender ss os : Forall2 prenders ss os ->
+    exists rest, params_list addr addr_dec (join 38 ss) = (somes os, rest) /\ is_nil rest = all_some os.
+  Proof.
+    intros F. destruct F as [|s o ss os R F]; [exists []; split; reflexivity|].
+    rewrite join_cons. unfold params_list. rewrite (proj2 R (tl_str ss) (stops_tl_str ss)).
+    destruct o as [ip|].
+    - apply (params_tail_prender ss os F). lia.
+    - exists (s ++ tl_str ss). split; [reflexivity|].
+      destruct R as [N _]. destruct s; [congruence | reflexivity].
+  Qed.
+  Lemma params_list_render ss ips : Forall2 prenders ss (map Some ips) ->
     params_list addr addr_dec (join 38 ss) = (ips, []).
   Proof.
-    intros F. destruct F as [|s ip ss ips R F]; [reflexivity|].
-    rewrite join_cons. unfold params_list. rewrite (R (tl_str ss) (stops_tl_str ss)).
-    apply (params_tail_render ss ips F). lia.
+    intros F. destruct (params_list_prender _ _ F) as (rest & E & N).
+    destruct (somes_map_some ips) as [S A]. rewrite S in E. rewrite A in N. destruct rest; [exact E | discriminate].
   Qed.
 
   (** ** grouping *)
@@ -278,22 +361,23 @@ Section WithAddresses.
     | q :: r => negb (has_duplicate_param addr acc q) && pnodupb (acc ++ [q]) r
     end.
 
-  Lemma group_same_index i qs : forall cur m rest, keys_lt m i -> pnodupb cur qs = true ->
-    group addr (map (fun q => (q, i)) qs ++ rest) (m ++ [(i, cur)]) = group addr rest (m ++ [(i, cur ++ qs)]).
+  (** grouping the parameters of one index: all are appended, unless one duplicates an earlier one *)
+  Lemma group_same_index i qs : forall cur m rest, keys_lt m i ->
+    group addr (map (fun q => (q, i)) qs ++ rest) (m ++ [(i, cur)])
+    = if pnodupb cur qs then group addr rest (m ++ [(i, cur ++ qs)]) else inl i.
   Proof.
-    induction qs as [|q qs IH]; intros cur m rest K N; [rewrite app_nil_r; reflexivity|].
-    cbn [map app group]. rewrite (map_get_last m i cur K).
-    cbn [pnodupb] in N. apply andb_true_iff in N. destruct N as [N1 N2].
-    destruct (has_duplicate_param addr cur q); [discriminate|].
-    rewrite (map_set_last m i cur (cur ++ [q]) K). rewrite (IH (cur ++ [q]) m rest K N2).
+    induction qs as [|q qs IH]; intros cur m rest K; [rewrite app_nil_r; reflexivity|].
+    cbn [map app group]. rewrite (map_get_last m i cur K). cbn [pnodupb].
+    destruct (has_duplicate_param addr cur q); [reflexivity|]. cbn [negb andb].
+    rewrite (map_set_last m i cur (cur ++ [q]) K). rewrite (IH (cur ++ [q]) m rest K).
     rewrite <- app_assoc. reflexivity.
   Qed.
-
-  Lemma group_new_index i q qs m rest : keys_lt m i -> pnodupb [q] qs = true ->
-    group addr (map (fun x => (x, i)) (q :: qs) ++ rest) m = group addr rest (m ++ [(i, q :: qs)]).
+  Lemma group_new_index i q qs m rest : keys_lt m i ->
+    group addr (map (fun x => (x, i)) (q :: qs) ++ rest) m
+    = if pnodupb [q] qs then group addr rest (m ++ [(i, q :: qs)]) else inl i.
   Proof.
-    intros K N. cbn [map app group]. rewrite (map_get_lt m i K), (map_set_lt m i [q] K).
-    apply (group_same_index i qs [q] m rest K N).
+    intros K. cbn [map app group]. rewrite (map_get_lt m i K), (map_set_lt m i [q] K).
+    apply (group_same_index i qs [q] m rest K).
   Qed.
 
   (** the parameters of a valid payment contain no duplicate *)
@@ -319,34 +403,84 @@ Section WithAddresses.
         apply (existsb_false _ _ ND1 n'). apply in_map_iff. exists (n', v'). split; [reflexivity | exact Hin].
   Qed.
 
-  Lemma params_of_nodup p : valid_paymentb p = true -> pnodupb [PAddr (p_addr p)] (tl (params_of p)) = true.
+
+  Fixpoint others_of (vs : list param) : list (bytes * bytes) :=
+    match vs with
+    | [] => []
+    | POther n v :: r => (n, v) :: others_of r
+    | _ :: r => others_of r
+    end.
+  Lemma pnodup_disjoint vs : forall acc, pnodupb acc vs = true ->
+    forall p0 q, In p0 acc -> In q vs -> same_kind addr p0 q = false.
   Proof.
-    intros V. unfold valid_paymentb in V. apply andb_true_iff in V. destruct V as [_ ND]. unfold no_duplicate_rule in ND.
+    induction vs as [|x vs IH]; intros acc H p0 q Hp Hq; [destruct Hq|].
+    cbn [pnodupb] in H. apply andb_true_iff in H. destruct H as [H1 H2].
+    apply negb_true_iff in H1. destruct Hq as [<-|Hq].
+    - unfold has_duplicate_param in H1. apply (existsb_false _ _ H1 p0 Hp).
+    - apply (IH (acc ++ [x]) H2); [apply in_or_app; left; exact Hp | exact Hq].
+  Qed.
+  Lemma others_of_in n v vs : In (n, v) (others_of vs) -> In (POther n v) vs.
+  Proof.
+    induction vs as [|x vs IH]; [intros []|]. destruct x; cbn [others_of]; try (intros H; right; apply IH, H).
+    intros [H|H]; [injection H as -> ->; left; reflexivity | right; apply IH, H].
+  Qed.
+  Lemma pnodup_others_nodup vs : forall acc, pnodupb acc vs = true -> nodupb (map fst (others_of vs)) = true.
+  Proof.
+    induction vs as [|x vs IH]; intros acc H; [reflexivity|].
+    cbn [pnodupb] in H. apply andb_true_iff in H. destruct H as [H1 H2].
+    destruct x; cbn [others_of]; try (apply (IH _ H2)).
+    cbn [map fst nodupb]. rewrite (IH _ H2), andb_true_r. apply negb_true_iff.
+    destruct (existsb (bytes_eqb n) (map fst (others_of vs))) eqn:E; [|reflexivity].
+    apply existsb_exists in E. destruct E as (n' & Hn' & En'). apply in_map_iff in Hn'.
+    destruct Hn' as ([n2 v2] & <- & Hin). cbn [fst] in En'. apply others_of_in in Hin.
+    pose proof (pnodup_disjoint vs _ H2 (POther n v) (POther n2 v2)
+                  ltac:(apply in_or_app; right; left; reflexivity) Hin) as D.
+    cbn [same_kind] in D. congruence.
+  Qed.
+  Lemma others_of_params p : others_of (tl (params_of p)) = p_other p.
+  Proof.
     unfold params_of. cbn [tl].
-    destruct (p_amount p), (p_memo p), (p_label p), (p_message p);
-      cbn [opt_list option_map app pnodupb has_duplicate_param existsb same_kind negb andb orb];
-      (apply pnodup_others; [intros nv _; repeat constructor | exact ND]).
+    destruct (p_amount p), (p_memo p), (p_label p), (p_message p); cbn [opt_list option_map app others_of];
+      (induction (p_other p) as [|[n v] l IH]; [reflexivity | cbn [map others_of fst snd]; rewrite IH; reflexivity]).
+  Qed.
+
+  (** the parameters of a payment contain no duplicate exactly when its additional names are distinct *)
+  Lemma params_of_nodup p : pnodupb [PAddr (p_addr p)] (tl (params_of p)) = no_duplicate_rule addr p.
+  Proof.
+    unfold no_duplicate_rule. destruct (nodupb (map fst (p_other p))) eqn:ND.
+    - unfold params_of. cbn [tl].
+      destruct (p_amount p), (p_memo p), (p_label p), (p_message p);
+        cbn [opt_list option_map app pnodupb has_duplicate_param existsb same_kind negb andb orb];
+        (apply pnodup_others; [intros nv _; repeat constructor | exact ND]).
+    - destruct (pnodupb [PAddr (p_addr p)] (tl (params_of p))) eqn:E; [|reflexivity].
+      apply pnodup_others_nodup in E. rewrite others_of_params in E. congruence.
   Qed.
 
   Definition all_params (r : request) : list (param * Z) :=
     flat_map (fun ip => map (fun q => (q, fst ip)) (params_of (snd ip))) r.
   Definition grouped (r : request) : list (Z * list param) := map (fun ip => (fst ip, params_of (snd ip))) r.
+  Definition all_nodup (r : request) : bool := forallb (fun ip => no_duplicate_rule addr (snd ip)) r.
+  (** index of the first payment with a duplicate *)
+  Fixpoint first_dup (r : request) : Z :=
+    match r with
+    | [] => 0
+    | ip :: q => if no_duplicate_rule addr (snd ip) then first_dup q else fst ip
+    end.
 
   Lemma group_all r : forall m prev, increasing prev (map fst r) = true -> keys_lt m (prev + 1) ->
-    Forall (fun ip => valid_paymentb (snd ip) = true) r ->
-    group addr (all_params r) m = inr (m ++ grouped r).
+    group addr (all_params r) m = if all_nodup r then inr (m ++ grouped r) else inl (first_dup r).
   Proof.
-    induction r as [|[i p] r IH]; intros m prev Inc K V; [cbn; rewrite app_nil_r; reflexivity|].
+    induction r as [|[i p] r IH]; intros m prev Inc K; [cbn; rewrite app_nil_r; reflexivity|].
     cbn [map fst increasing] in Inc. apply andb_true_iff in Inc. destruct Inc as [Lt Inc].
-    inversion V as [|? ? Vp Vr]; subst. cbn [snd] in Vp.
     assert (Ki : keys_lt m i). { eapply Forall_impl; [|exact K]. cbn. intros; lia. }
     unfold all_params. cbn [flat_map fst snd]. fold (all_params r).
     change (params_of p) with (PAddr (p_addr p) :: tl (params_of p)) at 1.
-    rewrite (group_new_index i _ _ m (all_params r) Ki (params_of_nodup p Vp)).
+    rewrite (group_new_index i _ _ m (all_params r) Ki), params_of_nodup.
+    cbn [all_nodup forallb first_dup fst snd]. destruct (no_duplicate_rule addr p); [|reflexivity]. cbn [andb].
     rewrite (IH (m ++ [(i, PAddr (p_addr p) :: tl (params_of p))]) i Inc).
-    - cbn [grouped map fst snd]. rewrite <- app_assoc. reflexivity.
+    - fold (all_nodup r). destruct (all_nodup r); [|reflexivity].
+      cbn [grouped map fst snd]. rewrite <- app_assoc. reflexivity.
     - apply Forall_app. split; [eapply Forall_impl; [|exact Ki]; cbn; intros; lia | repeat constructor; cbn; lia].
-    - exact Vr.
   Qed.
 
   (** ** to_payment *)
@@ -360,35 +494,67 @@ Section WithAddresses.
       rewrite <- app_assoc. reflexivity.
   Qed.
 
-  Lemma to_payment_params_of p i : valid_paymentb p = true -> to_payment addr can_memo t_only (params_of p) i = Ok p.
+
+  (** [to_payment] on the parameters of [p]: the zero-valued transparent check comes first (the
+      amount is rendered first), then the memo check; otherwise [p] itself *)
+  Definition pay_outcome (p : payment) (i : Z) : outcome payment zerr :=
+    if negb (zero_transparent_rule addr t_only p) then Err (EZeroTransparent i)
+    else if negb (memo_rule addr can_memo p) then Err (ETransparentMemo i)
+    else Ok p.
+  Lemma to_payment_params_of p i : to_payment addr can_memo t_only (params_of p) i = pay_outcome p i.
   Proof.
-    intros V. unfold valid_paymentb in V. repeat (apply andb_true_iff in V; destruct V as [V ?]).
-    unfold memo_rule in V. unfold zero_transparent_rule in *.
+    unfold pay_outcome, memo_rule, zero_transparent_rule.
     destruct p as [a am me la ms ot]. cbn [p_addr p_amount p_memo p_label p_message p_other] in *.
     unfold to_payment, params_of. cbn [find_addr p_addr p_amount p_memo p_label p_message p_other].
     destruct am as [z|], me as [m|], la as [l|], ms as [s|];
       cbn [opt_list option_map app apply_params p_addr p_amount p_memo p_label p_message p_other];
-      repeat match goal with
-             | |- context [t_only a && (z =? 0)] => destruct (t_only a && (z =? 0)); [discriminate|]
-             | |- context [if can_memo a then _ else _] => rewrite V
-             end;
+      try (destruct (t_only a && (z =? 0)); cbn [negb]; [reflexivity|]);
+      try rewrite andb_false_r; cbn [negb];
+      try (destruct (can_memo a); cbn [negb]; [|reflexivity]);
       cbn [apply_params p_addr p_amount p_memo p_label p_message p_other];
-      repeat match goal with
-             | |- context [if can_memo a then _ else _] => rewrite V
-             end;
       rewrite apply_others; reflexivity.
   Qed.
 
-  Lemma build_grouped r : Forall (fun ip => valid_paymentb (snd ip) = true) r ->
-    build addr can_memo t_only (grouped r) = Ok r.
+  Fixpoint build_outcome (r : request) : outcome request zerr :=
+    match r with
+    | [] => Ok []
+    | ip :: q => match pay_outcome (snd ip) (fst ip) with
+                 | Ok p => match build_outcome q with Ok q' => Ok ((fst ip, p) :: q') | e => e end
+                 | Err e => Err e
+                 | Panic => Panic
+                 end
+    end.
+  Lemma build_grouped r : build addr can_memo t_only (grouped r) = build_outcome r.
   Proof.
-    induction 1 as [|[i p] r Vp _ IH]; [reflexivity|].
-    cbn [grouped map build fst snd]. rewrite (to_payment_params_of p i Vp). fold (grouped r). rewrite IH. reflexivity.
+    induction r as [|[i p] r IH]; [reflexivity|].
+    cbn [grouped map build build_outcome fst snd]. rewrite (to_payment_params_of p i). fold (grouped r). rewrite IH.
+    destruct (pay_outcome p i); try reflexivity; destruct (build_outcome r); reflexivity.
+  Qed.
+  Lemma build_outcome_ok r r' : build_outcome r = Ok r' ->
+    r' = r /\ Forall (fun ip => memo_rule addr can_memo (snd ip) = true /\ zero_transparent_rule addr t_only (snd ip) = true) r.
+  Proof.
+    revert r'. induction r as [|[i p] r IH]; intros r'; cbn [build_outcome fst snd]; [intros [= <-]; split; [reflexivity | constructor]|].
+    unfold pay_outcome. destruct (zero_transparent_rule addr t_only p) eqn:Z; cbn [negb]; [|discriminate].
+    destruct (memo_rule addr can_memo p) eqn:M; cbn [negb]; [|discriminate].
+    destruct (build_outcome r) as [q| |]; try discriminate. intros [= <-].
+    destruct (IH q eq_refl) as [-> F]. split; [reflexivity | constructor; [split; assumption | exact F]].
+  Qed.
+  Lemma build_outcome_valid r : Forall (fun ip => valid_paymentb (snd ip) = true) r -> build_outcome r = Ok r.
+  Proof.
+    induction 1 as [|[i p] r V _ IH]; [reflexivity|]. cbn [build_outcome fst snd]. rewrite IH.
+    unfold valid_paymentb in V. cbn [snd] in V. repeat (apply andb_true_iff in V; destruct V as [V ?]).
+    unfold pay_outcome. rewrite V. match goal with H : zero_transparent_rule _ _ _ = true |- _ => rewrite H end. reflexivity.
   Qed.
 
-  (** ** from_uri (to_uri r) = Ok r *)
-  Definition good_request (r : request) : Prop :=
-    wf_requestb addr r = true /\ validb addr can_memo t_only r = true.
+  (** ** from_uri (to_uri r): the complete outcome for a request whose additional-parameter names are
+      in the grammar and none of the five defined names *)
+  Definition pre_request (r : request) : Prop :=
+    wf_requestb addr r = true /\ index_rule addr r = true /\ forallb (fun ip => names_pre (snd ip)) r = true
+    /\ addrs_ok r.
+  Definition render_outcome (r : request) : outcome request zerr :=
+    if negb (forallb (fun ip => no_req (snd ip)) r) then Err EParse
+    else if negb (all_nodup r) then Err (EDup (first_dup r))
+    else build_outcome r.
 
   Lemma increasing_lower l : forall prev, increasing prev l = true -> Forall (fun k => prev < k) l.
   Proof.
@@ -397,77 +563,162 @@ Section WithAddresses.
     eapply Forall_impl; [|apply (IH x B)]. cbn. intros; lia.
   Qed.
 
-  Lemma good_request_each r : good_request r ->
-    Forall (fun ip => 0 <= fst ip <= 9999 /\ good_payment (snd ip)) r.
+  Lemma pre_request_each r : pre_request r ->
+    Forall (fun ip => 0 <= fst ip <= 9999 /\ wf_paymentb (snd ip) = true /\ names_pre (snd ip) = true
+                      /\ addr_ok (p_addr (snd ip))) r.
   Proof.
-    intros [W V]. unfold wf_requestb in W. apply andb_true_iff in W. destruct W as [Inc W].
-    unfold validb, index_rule in V. apply andb_true_iff in V. destruct V as [Ix V].
-    apply increasing_lower in Inc. rewrite Forall_forall in *. rewrite forallb_forall in W, Ix, V.
-    intros ip Hip. specialize (W ip Hip). specialize (Ix ip Hip). specialize (V ip Hip).
-    specialize (Inc (fst ip) (in_map fst _ _ Hip)). cbv beta in *. repeat split; try lia; assumption.
+    intros (W & Ix & NP & AO). unfold wf_requestb in W. apply andb_true_iff in W. destruct W as [Inc W].
+    unfold index_rule in Ix. apply increasing_lower in Inc. unfold addrs_ok in AO.
+    rewrite Forall_forall in *. rewrite forallb_forall in W, Ix, NP.
+    intros ip Hip. specialize (W ip Hip). specialize (Ix ip Hip). specialize (NP ip Hip). specialize (AO ip Hip).
+    specialize (Inc (fst ip) (in_map fst _ _ Hip)). cbv beta in *. repeat split; try lia; try assumption; apply AO.
   Qed.
-  Lemma good_request_valid r : good_request r -> Forall (fun ip => valid_paymentb (snd ip) = true) r.
-  Proof. intros G. eapply Forall_impl; [|apply good_request_each, G]. cbn. intros ip (_ & _ & V). exact V. Qed.
 
   Definition idx_of (i : Z) : option Z := if i =? 0 then None else Some i.
   Lemma idx_of_ok i : 0 <= i <= 9999 -> idx_ok (idx_of i) /\ idx_val (idx_of i) = i.
   Proof. intros H. unfold idx_of. destruct (i =? 0) eqn:E; cbn; lia. Qed.
 
-  Lemma renders_all r : good_request r ->
-    Forall2 renders
+  Definition oall (r : request) : list (option (param * Z)) :=
+    flat_map (fun ip => Some (PAddr (p_addr (snd ip)), fst ip) :: oparams (snd ip) (idx_of (fst ip))) r.
+
+  Lemma prenders_all r : pre_request r ->
+    Forall2 prenders
       (flat_map (fun ip => let idx := if fst ip =? 0 then None else Some (fst ip) in
                            addr_param addr addr_enc (p_addr (snd ip)) idx :: payment_params addr (snd ip) idx) r)
-      (all_params r).
+      (oall r).
   Proof.
-    intros G. apply good_request_each in G. induction G as [|[i p] r (Hi & Gp) _ IH]; [constructor|].
-    cbn [flat_map all_params fst snd]. fold (all_params r). cbv zeta. fold (idx_of i).
+    intros G. apply pre_request_each in G. induction G as [|[i p] r (Hi & Wp & Np & Ap) _ IH]; [constructor|].
+    cbn [flat_map oall fst snd]. fold (oall r). cbv zeta. fold (idx_of i).
     destruct (idx_of_ok i Hi) as [Iok Iv].
     apply Forall2_app; [|exact IH].
-    unfold params_of at 1. cbn [map]. fold (tl (params_of p)).
     constructor.
-    - rewrite <- Iv at 2. apply renders_addr. exact Iok.
-    - pose proof (renders_payment_params p (idx_of i) Iok Gp) as R. rewrite Iv in R. exact R.
+    - rewrite <- Iv at 2. apply renders_addr; assumption.
+    - apply prenders_payment_params; assumption.
   Qed.
 
-  Lemma from_uri_general r : good_request r -> from_uri (to_uri_general addr addr_enc r) = Ok r.
+  Lemma oall_no_req r : Forall (fun ip => 0 <= fst ip <= 9999) r -> forallb (fun ip => no_req (snd ip)) r = true ->
+    oall r = map Some (all_params r).
   Proof.
-    intros G. unfold Model.from_uri, to_uri_general, lead_addr.
-    rewrite strip_prefix_app. cbn [span]. rewrite Z.eqb_refl. cbn [negb is_nil].
-    pose proof (params_list_render _ _ (renders_all r G)) as PL. cbv zeta in PL.
-    change (63 =? 63) with true. cbv iota. rewrite PL. cbn [is_nil].
-    destruct G as [W V]. pose proof (good_request_valid r (conj W V)) as Vp.
-    unfold wf_requestb in W. apply andb_true_iff in W. destruct W as [Inc _].
-    rewrite (group_all r [] (-1) Inc ltac:(constructor) Vp). cbn [app].
-    apply build_grouped. exact Vp.
+    induction 1 as [|[i p] r Hi _ IH]; intros NR; [reflexivity|].
+    cbn [forallb snd] in NR. apply andb_true_iff in NR. destruct NR as [N1 NR].
+    cbn [oall all_params flat_map fst snd]. fold (oall r). fold (all_params r).
+    rewrite (IH NR), map_app. f_equal. rewrite (oparams_no_req p (idx_of i) N1).
+    destruct (idx_of_ok i Hi) as [_ ->]. unfold params_of at 2. cbn [map]. reflexivity.
+  Qed.
+  Lemma all_some_app {A} (a b : list (option A)) : all_some (a ++ b) = all_some a && all_some b.
+  Proof. unfold all_some. apply forallb_app. Qed.
+  Lemma oall_req r : forallb (fun ip => no_req (snd ip)) r = false -> all_some (oall r) = false.
+  Proof.
+    induction r as [|[i p] r IH]; [discriminate|]. cbn [forallb snd]. intros NR.
+    cbn [oall flat_map fst snd]. fold (oall r).
+    change (Some (PAddr (p_addr p), i) :: oparams p (idx_of i) ++ oall r)
+      with ((Some (PAddr (p_addr p), i) :: oparams p (idx_of i)) ++ oall r).
+    rewrite all_some_app.
+    change (all_some (Some (PAddr (p_addr p), i) :: oparams p (idx_of i))) with (all_some (oparams p (idx_of i))).
+    destruct (no_req p) eqn:E; [cbn [andb] in NR; rewrite (IH NR); apply andb_false_r|].
+    rewrite (oparams_req p _ E). reflexivity.
   Qed.
 
   Lemma inr_inj {A B} (x y : B) : @inr A B x = inr y -> x = y.
   Proof. intros H. injection H. auto. Qed.
 
-  Theorem request_roundtrip r : good_request r -> from_uri (to_uri r) = Ok r.
+  (** after grouping: duplicates, then [build] *)
+  Lemma group_build r : wf_requestb addr r = true ->
+    match group addr (all_params r) [] with
+    | inl i => Err (EDup i)
+    | inr m => build addr can_memo t_only m
+    end = if negb (all_nodup r) then Err (EDup (first_dup r)) else build_outcome r.
+  Proof.
+    intros W. unfold wf_requestb in W. apply andb_true_iff in W. destruct W as [Inc _].
+    rewrite (group_all r [] (-1) Inc ltac:(constructor)). destruct (all_nodup r); cbn [negb app]; [|reflexivity].
+    apply build_grouped.
+  Qed.
+
+  Lemma from_uri_general r : pre_request r -> from_uri (to_uri_general addr addr_enc r) = render_outcome r.
+  Proof.
+    intros G. unfold Model.from_uri, to_uri_general, lead_addr, render_outcome.
+    rewrite strip_prefix_app. cbn [span]. rewrite Z.eqb_refl. cbn [negb is_nil].
+    destruct (params_list_prender _ _ (prenders_all r G)) as (rest & PL & NL). cbv zeta in PL.
+    change (63 =? 63) with true. cbv iota. rewrite PL, NL.
+    destruct (forallb (fun ip => no_req (snd ip)) r) eqn:NR; cbn [negb].
+    - assert (Hi : Forall (fun ip => 0 <= fst ip <= 9999) r).
+      { eapply Forall_impl; [|apply pre_request_each, G]. cbn. tauto. }
+      rewrite (oall_no_req r Hi NR). destruct (somes_map_some (all_params r)) as [-> ->].
+      apply group_build. apply G.
+    - rewrite (oall_req r NR). reflexivity.
+  Qed.
+
+  Theorem from_uri_to_uri r : pre_request r -> from_uri (to_uri r) = render_outcome r.
   Proof.
     intros G. destruct r as [|[i p] [|ip2 r']]; [reflexivity | | apply from_uri_general, G].
     unfold Model.to_uri. destruct (i =? 0) eqn:E0; [|apply from_uri_general, G].
     apply Z.eqb_eq in E0. subst i.
-    pose proof (good_request_each _ G) as Each. inversion Each as [|? ? (_ & Gp) _]; subst. cbn [snd] in Gp.
-    pose proof (good_request_valid _ G) as Vp.
-    pose proof (renders_payment_params p None I Gp) as R. cbn [idx_val] in R.
-    set (qp := payment_params addr p None) in *. set (ips := map (fun q => (q, 0)) (tl (params_of p))) in *.
+    pose proof (pre_request_each _ G) as Each. inversion Each as [|? ? (_ & Wp & Np & (RT & NE & AN)) _]; subst. cbn [snd] in *.
+    pose proof (prenders_payment_params p None I Wp Np) as R.
     assert (Span : forall Y, stops (fun c => negb (c =? 63)) Y ->
               span (fun c => negb (c =? 63)) (addr_enc (p_addr p) ++ Y) = (addr_enc (p_addr p), Y)).
-    { intros Y HY. apply span_app; [|exact HY]. eapply forallb_impl; [apply alnum_not_63 | apply addr_enc_alnum]. }
-    assert (Fin : group addr ips [(0, [PAddr (p_addr p)])] = inr (grouped [(0, p)])).
-    { pose proof (group_same_index 0 (tl (params_of p)) [PAddr (p_addr p)] [] [] ltac:(constructor)
-                    (params_of_nodup p ltac:(inversion Vp; assumption))) as GS.
-      rewrite app_nil_r in GS. cbn [app] in GS. exact GS. }
-    unfold Model.from_uri, lead_addr. rewrite strip_prefix_app.
-    destruct qp as [|q qp'] eqn:Eq.
-    - inversion R as [E1 E2|]; subst. cbn [is_nil app join].
-      rewrite (Span [] I). rewrite (is_nil_false _ (addr_enc_nonempty (p_addr p))). rewrite addr_rt.
-      rewrite <- E2 in Fin. cbn [group] in Fin. cbn [group]. apply inr_inj in Fin. rewrite Fin.
-      apply build_grouped. exact Vp.
-    - cbn [is_nil]. cbn [app]. rewrite (Span (63 :: join 38 (q :: qp')) ltac:(reflexivity)).
-      rewrite (is_nil_false _ (addr_enc_nonempty (p_addr p))), addr_rt. rewrite Z.eqb_refl.
-      rewrite (params_list_render _ _ R). cbn [is_nil]. rewrite Fin. apply build_grouped. exact Vp.
+    { intros Y HY. apply span_app; [|exact HY]. eapply forallb_impl; [apply alnum_not_63 | exact AN]. }
+    (* what the parameter list gives, in both the empty and the non-empty case *)
+    assert (PL :
+               match (if is_nil (payment_params addr p None) then [] else [63]) ++ join 38 (payment_params addr p None) with
+               | [] => Some []
+               | c :: q => if c =? 63 then let (xs, r') := params_list addr addr_dec q in if is_nil r' then Some xs else None else None
+               end = (if all_some (oparams p None) then Some (somes (oparams p None)) else None)).
+    { destruct (payment_params addr p None) as [|q qp'] eqn:Eq.
+      - inversion R as [E1 E2|]; subst. reflexivity.
+      - cbn [is_nil app]. rewrite Z.eqb_refl. destruct (params_list_prender _ _ R) as (rest & E & N).
+        rewrite E, N. reflexivity. }
+    assert (SY : stops (fun c => negb (c =? 63))
+                   ((if is_nil (payment_params addr p None) then [] else [63]) ++ join 38 (payment_params addr p None))).
+    { destruct (payment_params addr p None); [exact I | reflexivity]. }
+    unfold Model.from_uri, lead_addr. cbv zeta. rewrite strip_prefix_app.
+    rewrite (Span _ SY).
+    rewrite (is_nil_false _ NE), RT. rewrite PL. unfold render_outcome. cbn [forallb snd]. rewrite andb_true_r.
+    destruct (no_req p) eqn:NR; cbn [negb].
+    - rewrite (oparams_no_req p None NR). destruct (somes_map_some (map (fun q => (q, idx_val None)) (tl (params_of p)))) as [-> ->].
+      pose proof (group_build [(0, p)] ltac:(apply G)) as GB.
+      cbn [all_params flat_map fst snd app] in GB. rewrite app_nil_r in GB.
+      unfold params_of at 1 in GB. cbn [map group map_get map_set] in GB. fold (tl (params_of p)) in GB.
+      cbn [idx_val]. exact GB.
+    - rewrite (oparams_req p None NR). reflexivity.
+  Qed.
+
+  (** a valid request comes back unchanged *)
+  Definition good_request (r : request) : Prop :=
+    wf_requestb addr r = true /\ validb addr can_memo t_only r = true.
+  Lemma good_pre r : good_request r -> addrs_ok r -> pre_request r.
+  Proof.
+    intros [W V] A. unfold validb in V. apply andb_true_iff in V. destruct V as [Ix V].
+    repeat split; auto. rewrite forallb_forall in *. intros ip Hip. specialize (V ip Hip).
+    unfold Spec.valid_paymentb in V. repeat (apply andb_true_iff in V; destruct V as [V ?]).
+    match goal with H : other_names_rule _ _ = true |- _ => rewrite other_names_rule_split in H; apply andb_true_iff in H; tauto end.
+  Qed.
+  Lemma valid_render_outcome r : validb addr can_memo t_only r = true -> render_outcome r = Ok r.
+  Proof.
+    intros V. unfold validb in V. apply andb_true_iff in V. destruct V as [_ V]. unfold render_outcome.
+    assert (NR : forallb (fun ip => no_req (snd ip)) r = true /\ all_nodup r = true /\ Forall (fun ip => valid_paymentb (snd ip) = true) r).
+    { unfold all_nodup. rewrite Forall_forall. rewrite !forallb_forall. rewrite forallb_forall in V.
+      repeat split; intros ip Hip; specialize (V ip Hip); auto;
+        unfold Spec.valid_paymentb in V; repeat (apply andb_true_iff in V; destruct V as [V ?]); auto.
+      match goal with H : other_names_rule _ _ = true |- _ => rewrite other_names_rule_split in H; apply andb_true_iff in H; tauto end. }
+    destruct NR as (-> & -> & F). cbn [negb]. apply build_outcome_valid, F.
+  Qed.
+  Theorem request_roundtrip r : good_request r -> addrs_ok r -> from_uri (to_uri r) = Ok r.
+  Proof.
+    intros G A. rewrite (from_uri_to_uri r (good_pre r G A)). apply valid_render_outcome, G.
+  Qed.
+
+  (** conversely: if the rendering parses at all, the request was valid and is what comes back *)
+  Lemma render_outcome_ok r r' : index_rule addr r = true -> forallb (fun ip => names_pre (snd ip)) r = true ->
+    render_outcome r = Ok r' -> r' = r /\ validb addr can_memo t_only r = true.
+  Proof.
+    intros Ix NP. unfold render_outcome.
+    destruct (forallb (fun ip => no_req (snd ip)) r) eqn:NR; cbn [negb]; [|discriminate].
+    destruct (all_nodup r) eqn:ND; cbn [negb]; [|discriminate]. intros B.
+    destruct (build_outcome_ok r r' B) as [-> F]. split; [reflexivity|].
+    unfold validb. rewrite Ix. cbn [andb]. apply forallb_forall. intros ip Hip.
+    rewrite Forall_forall in F. destruct (F ip Hip) as [M Z]. unfold all_nodup in ND.
+    rewrite forallb_forall in NP, NR, ND. unfold Spec.valid_paymentb.
+    rewrite M, Z, other_names_rule_split, (NP ip Hip), (NR ip Hip), (ND ip Hip). reflexivity.
   Qed.
 End WithAddresses.
